@@ -99,6 +99,27 @@ pub fn in_fresh_thread<T: Send + 'static>(f: impl FnOnce() -> T + Send + 'static
     h.join().unwrap()
 }
 
+/// The same with a wall-clock limit (rewriting can take minutes on classes with many symmetries: every insertion
+/// enumerates the cartesian product of the children's groups).  On timeout the thread is abandoned (it dies with the
+/// process) and `Err(("timeout", ..))` is returned; such cases are reported as skipped, never as passed.
+pub fn in_fresh_thread_limited<T: Send + 'static>(f: impl FnOnce() -> T + Send + 'static) -> Result<T, (String, String)> {
+    let secs: u64 = std::env::var("VERIF_CASE_TIMEOUT").ok().and_then(|s| s.parse().ok()).unwrap_or(20);
+    let (tx, rx) = std::sync::mpsc::channel();
+    std::thread::Builder::new()
+        .stack_size(256 << 20)
+        .spawn(move || {
+            let r = panic::catch_unwind(panic::AssertUnwindSafe(f));
+            let _ = tx.send(match r { Ok(v) => Ok(v), Err(_) => Err(take_panic().unwrap_or_default()) });
+        })
+        .unwrap();
+    match rx.recv_timeout(std::time::Duration::from_secs(secs)) {
+        Ok(r) => r,
+        Err(_) => Err(("timeout".to_string(), format!("case exceeded {} s", secs))),
+    }
+}
+
+pub fn timeout_obs() -> Sx { lst(vec![sym("obs"), lst(vec![sym("res"), sym("timeout")])]) }
+
 pub struct Args {
     pub seed: u64,
     pub count: u64,
